@@ -144,3 +144,23 @@ def install_trace_funcs(reg):
         return VBool(z3.Or([st == m.index(it.concrete(n)) for n in names]))
 
     sf["in_state"] = in_state
+
+
+# ---------------------------------------------------------------------------------------------------------------
+# tasks shared between property modules (a contract proved in one module is part of another property as well)
+_ACTIVE = set()
+
+
+def shared_tasks(me, other, suffixes):
+    """the ContractTasks of module `other` whose target ends with one of `suffixes`; modules that are already being
+    collected (cyclic sharing: c10 -> c11 -> c16 -> c10) contribute nothing the second time round"""
+    import importlib
+    if other in _ACTIVE:
+        return []
+    added = {m for m in (me, other) if m not in _ACTIVE}
+    _ACTIVE.update(added)
+    try:
+        ts = importlib.import_module("props." + other).tasks()
+    finally:
+        _ACTIVE.difference_update(added)
+    return [t for t in ts if getattr(t, "contract", None) is not None and t.contract.target.endswith(tuple(suffixes))]
